@@ -224,6 +224,11 @@ theorem cinv_request {s : Node} {c : Nat} {x : Conn} {short : Bool} {q : Req} (h
     (hty : ∀ ct md cmd rep, q = .lk ct md cmd rep → ct = .lock ∨ ct = .unlock) :
     CInv (applyConn s c x (reqRid q) (classify s x short q)).1 := by
   cases q with
+  | will wct wcmd =>
+    rcases classify_will_shape (s := s) (x := x) (short := short) (ct := wct) (cmd := wcmd) with h | h | h <;> rw [h] <;> simp only [applyConn]
+    · exact hx
+    · exact hx
+    · exact cinv_dispatched _ hx
   | other =>
     rcases classify_other_shape (s := s) (x := x) (short := short) with h | h | h <;> rw [h] <;> simp only [applyConn]
     · exact hx
@@ -591,7 +596,23 @@ theorem ninv_step {s : Node} {e : Event} (hs : NInv s) (hok : Ok s e) : NInv (st
   | unattached c => exact hs
   | request c short q =>
     intro y hy
-    simp only [step, stepRequest] at hy
+    simp only [step] at hy
+    rcases will_or_not q with ⟨wct, wcmd, rfl⟩ | hq
+    · rw [stepRequest_will] at hy
+      split at hy
+      · exact hs y hy
+      · rename_i x hx
+        simp only at hy
+        rcases List.mem_or_eq_of_mem_set hy with hy | rfl
+        · exact hs y hy
+        · have hxi := hget hx
+          have hd := cinv_dispatched (s := s) (some wcmd.rid) hxi
+          unfold willConn
+          repeat' split
+          all_goals first
+            | exact hxi
+            | exact ⟨hd.gotNodup, hd.gotAsked, hd.pendAsked, hd.pendFresh, hd.pendNodup, hd.latestPend, hd.awaitPend⟩
+    rw [stepRequest_eq hq] at hy
     split at hy
     · exact hs y hy
     · rename_i x hx
